@@ -795,3 +795,323 @@ func (c *Ctx) derivedFromTree(info *types.Info, stack []ast.Node, e ast.Expr, de
 	})
 	return found
 }
+
+// ---------------------------------------------------------------------------------------------
+// SCANNER-ERR: a bufio.Scanner stops silently on a read error or on a token longer than its
+// buffer (64 KiB by default): a loop `for s.Scan()` not followed by a look at s.Err() returns a
+// truncated list as if the file ended there.
+func (c *Ctx) scannerErr(rule string, funcs []*FuncInfo, clause string) (n, nviol int) {
+	for _, fi := range funcs {
+		if fi.Decl.Body == nil {
+			continue
+		}
+		info := fi.Pkg.TypesInfo
+		scans := map[types.Object]token.Pos{}
+		errs := map[types.Object]bool{}
+		ast.Inspect(fi.Decl.Body, func(m ast.Node) bool {
+			call, ok := m.(*ast.CallExpr)
+			if !ok {
+				return true
+			}
+			g := calleeOf(info, call)
+			if g == nil || g.Pkg() == nil || g.Pkg().Path() != "bufio" {
+				return true
+			}
+			sig := g.Type().(*types.Signature)
+			if sig.Recv() == nil || !strings.HasSuffix(sig.Recv().Type().String(), "bufio.Scanner") {
+				return true
+			}
+			sel, ok := unparen(call.Fun).(*ast.SelectorExpr)
+			if !ok {
+				return true
+			}
+			o := identObj(info, sel.X)
+			if o == nil {
+				return true
+			}
+			switch g.Name() {
+			case "Scan":
+				if _, seen := scans[o]; !seen {
+					scans[o] = call.Pos()
+				}
+			case "Err":
+				errs[o] = true
+			}
+			return true
+		})
+		for o, pos := range scans {
+			n++
+			key := funcName(fi.Obj) + "/" + o.Name() + ".Scan"
+			if errs[o] {
+				c.OK(rule, key, pos, "the scanner's error is looked at")
+			} else {
+				nviol++
+				c.Violation(rule, key, pos, "the function reads with "+o.Name()+".Scan() and never looks at "+o.Name()+".Err(): a read error or a line longer than the scanner's buffer (64 KiB) ends the loop silently and the rest of the input is dropped with a nil error").Clause = clause
+			}
+		}
+	}
+	return
+}
+
+// ---------------------------------------------------------------------------------------------
+// Comparators. lessVerdict classifies the `less` function literal given to sort.Slice & co:
+//   "total"   one comparison `K(x[i]) < K(x[j])` (or >, or strings.Compare(..) <op> 0) where the two
+//             sides are the same expression in i and j and K only indexes, selects fields and calls
+//             trivial getters of the repository: distinct keys are strictly ordered;
+//   "lossy"   the sides are compared through another function (strings.ToLower, strconv.Atoi, len, a
+//             slice of the string ...): elements that differ only by what the function discards tie,
+//             and a tie leaves them in whatever order the slice had; or the key is chosen by a
+//             condition that is not "the previous keys are equal" (two-clause mixed comparator), which
+//             is not transitive in general;
+//   "unknown" anything else (never reported).
+func (c *Ctx) lessVerdict(info *types.Info, lit *ast.FuncLit) (verdict, why string) {
+	if lit.Type.Params == nil {
+		return "unknown", ""
+	}
+	var ps []types.Object
+	for _, f := range lit.Type.Params.List {
+		for _, nm := range f.Names {
+			ps = append(ps, info.Defs[nm])
+		}
+	}
+	if len(ps) != 2 {
+		return "unknown", ""
+	}
+	// locals of the literal: single definitions, expanded
+	defs := map[types.Object]ast.Expr{}
+	multi := map[types.Object]bool{}
+	var stmts []ast.Stmt
+	for _, s := range lit.Body.List {
+		if as, ok := s.(*ast.AssignStmt); ok && as.Tok == token.DEFINE {
+			for i, l := range as.Lhs {
+				if o := identObj(info, l); o != nil {
+					if len(as.Lhs) == len(as.Rhs) {
+						defs[o] = as.Rhs[i]
+					} else if len(as.Rhs) == 1 {
+						defs[o] = as.Rhs[0]
+						multi[o] = true
+					}
+				}
+			}
+			continue
+		}
+		stmts = append(stmts, s)
+	}
+	var render func(e ast.Expr, depth int) (string, bool) // string with params replaced by $, pure?
+	render = func(e ast.Expr, depth int) (string, bool) {
+		e = unparen(e)
+		switch x := e.(type) {
+		case *ast.Ident:
+			o := identObj(info, x)
+			if o == ps[0] || o == ps[1] {
+				return "$", true
+			}
+			if d, ok := defs[o]; ok && depth > 0 {
+				s, pure := render(d, depth-1)
+				if multi[o] {
+					return s + "#" + x.Name, pure
+				}
+				return s, pure
+			}
+			return x.Name, true
+		case *ast.BasicLit:
+			return x.Value, true
+		case *ast.IndexExpr:
+			a, p1 := render(x.X, depth)
+			b, p2 := render(x.Index, depth)
+			return a + "[" + b + "]", p1 && p2
+		case *ast.SelectorExpr:
+			a, p1 := render(x.X, depth)
+			return a + "." + x.Sel.Name, p1
+		case *ast.StarExpr:
+			a, p1 := render(x.X, depth)
+			return "*" + a, p1
+		case *ast.CallExpr:
+			g := calleeOf(info, x)
+			c.indexAccessors()
+			name := "call"
+			pure := false
+			if g != nil {
+				name = g.Name()
+				if _, isGetter := c.getters[g]; isGetter {
+					pure = true
+				}
+				// conversions between string types and float64(x) keep the order of distinct values
+			} else if tv, ok := info.Types[x.Fun]; ok && tv.IsType() {
+				name = "conv"
+				if b, ok := tv.Type.Underlying().(*types.Basic); ok && (b.Info()&types.IsString != 0 || b.Kind() == types.Float64) {
+					pure = true
+				}
+			}
+			s, _ := render(x.Fun, depth)
+			_ = name
+			out := s + "("
+			for _, a := range x.Args {
+				as, p := render(a, depth)
+				out += as + ","
+				pure = pure && p
+			}
+			return out + ")", pure
+		case *ast.SliceExpr:
+			a, _ := render(x.X, depth)
+			return a + "[:]", false
+		case *ast.BinaryExpr:
+			a, p1 := render(x.X, depth)
+			b, p2 := render(x.Y, depth)
+			return a + x.Op.String() + b, p1 && p2 && false // arithmetic on keys: not analysed
+		}
+		return "?", false
+	}
+	// sides of a comparison, each mentioning exactly one of the two parameters
+	mentionsParam := func(e ast.Expr, p types.Object) bool {
+		found := false
+		var walk func(e ast.Expr, depth int)
+		walk = func(e ast.Expr, depth int) {
+			ast.Inspect(e, func(m ast.Node) bool {
+				if id, ok := m.(*ast.Ident); ok {
+					o := identObj(info, id)
+					if o == p {
+						found = true
+					}
+					if d, ok := defs[o]; ok && depth > 0 {
+						walk(d, depth-1)
+					}
+				}
+				return !found
+			})
+		}
+		walk(e, 3)
+		return found
+	}
+	type cmp struct {
+		a, b ast.Expr
+	}
+	asCmp := func(e ast.Expr) (cmp, bool) {
+		be, ok := unparen(e).(*ast.BinaryExpr)
+		if !ok {
+			return cmp{}, false
+		}
+		switch be.Op {
+		case token.LSS, token.GTR, token.LEQ, token.GEQ:
+		default:
+			return cmp{}, false
+		}
+		// strings.Compare(A, B) <op> 0
+		if call, ok := unparen(be.X).(*ast.CallExpr); ok && len(call.Args) == 2 {
+			if g := calleeOf(info, call); g != nil && g.Pkg() != nil && (g.Pkg().Path() == "strings" || g.Pkg().Path() == "bytes" || g.Pkg().Path() == "cmp") && g.Name() == "Compare" {
+				return cmp{call.Args[0], call.Args[1]}, true
+			}
+		}
+		return cmp{be.X, be.Y}, true
+	}
+	classify := func(k cmp) (string, string) {
+		a, b := k.a, k.b
+		if !(mentionsParam(a, ps[0]) && mentionsParam(b, ps[1]) && !mentionsParam(a, ps[1]) && !mentionsParam(b, ps[0])) &&
+			!(mentionsParam(a, ps[1]) && mentionsParam(b, ps[0]) && !mentionsParam(a, ps[0]) && !mentionsParam(b, ps[1])) {
+			return "unknown", ""
+		}
+		sa, pa := render(a, 3)
+		sb, pb := render(b, 3)
+		if sa != sb {
+			return "unknown", ""
+		}
+		if pa && pb {
+			return "total", sa
+		}
+		return "lossy", "the elements are compared through " + sa + " (not a field or a trivial getter): elements that differ only in what this computation discards tie, and tied elements keep whatever order the slice had before"
+	}
+	if len(stmts) == 1 {
+		if rs, ok := stmts[0].(*ast.ReturnStmt); ok && len(rs.Results) == 1 {
+			if k, ok := asCmp(rs.Results[0]); ok {
+				return classify(k)
+			}
+		}
+		return "unknown", ""
+	}
+	if len(stmts) == 2 {
+		is, ok1 := stmts[0].(*ast.IfStmt)
+		rs, ok2 := stmts[1].(*ast.ReturnStmt)
+		if ok1 && ok2 && is.Else == nil && is.Init == nil && len(is.Body.List) == 1 && len(rs.Results) == 1 {
+			if r1, ok := is.Body.List[0].(*ast.ReturnStmt); ok && len(r1.Results) == 1 {
+				k1, okA := asCmp(r1.Results[0])
+				k2, okB := asCmp(rs.Results[0])
+				if okA && okB {
+					// lexicographic chain: the condition is K1(i) != K1(j)
+					if be, ok := unparen(is.Cond).(*ast.BinaryExpr); ok && be.Op == token.NEQ {
+						s1, _ := render(be.X, 3)
+						s2, _ := render(be.Y, 3)
+						ka, _ := render(k1.a, 3)
+						if s1 == s2 && s1 == ka {
+							v1, w1 := classify(k1)
+							v2, w2 := classify(k2)
+							if v1 == "lossy" {
+								return v1, w1
+							}
+							if v2 == "lossy" {
+								return v2, w2
+							}
+							if v1 == "total" && v2 == "total" {
+								return "total", w1 + " then " + w2
+							}
+							return "unknown", ""
+						}
+					}
+					sa, _ := render(k1.a, 3)
+					sb, _ := render(k2.a, 3)
+					if sa != sb {
+						return "lossy", "the key is chosen by a condition on both elements (" + sa + " when the condition holds, " + sb + " otherwise) with no clause ordering the two classes: such a relation is not transitive in general, so the sorted order depends on the order the slice had before"
+					}
+				}
+			}
+		}
+	}
+	return "unknown", ""
+}
+
+// lessOfSortCall returns the function literal given as `less` to sort.Slice / SliceStable /
+// slices.SortFunc, or nil.
+func lessOfSortCall(info *types.Info, call *ast.CallExpr) *ast.FuncLit {
+	g := calleeOf(info, call)
+	if g == nil || g.Pkg() == nil {
+		return nil
+	}
+	if (g.Pkg().Path() == "sort" && (g.Name() == "Slice" || g.Name() == "SliceStable")) || (g.Pkg().Path() == "slices" && strings.HasPrefix(g.Name(), "Sort")) {
+		if len(call.Args) == 2 {
+			if lit, ok := unparen(call.Args[1]).(*ast.FuncLit); ok {
+				return lit
+			}
+		}
+	}
+	return nil
+}
+
+// cmpTotal reports every sort with a lossy comparator in the given functions.
+func (c *Ctx) cmpTotal(rule string, funcs []*FuncInfo, clause string) (n, nviol int) {
+	for _, fi := range funcs {
+		if fi.Decl.Body == nil {
+			continue
+		}
+		info := fi.Pkg.TypesInfo
+		k := 0
+		for _, call := range callsIn(fi.Decl.Body, true) {
+			lit := lessOfSortCall(info, call)
+			if lit == nil {
+				continue
+			}
+			k++
+			n++
+			key := fmt.Sprintf("%s/sort#%d(%s)", funcName(fi.Obj), k, c.canon(info, call.Args[0], nil))
+			v, why := c.lessVerdict(info, lit)
+			switch v {
+			case "total":
+				c.OK(rule, key, call.Pos(), "strict order on the key "+why)
+			case "lossy":
+				nviol++
+				c.Violation(rule, key, call.Pos(), why).Clause = clause
+			default:
+				c.Note(rule, key, call.Pos(), "comparator of a shape the rule does not classify; assumed to be a strict weak order")
+			}
+		}
+	}
+	return
+}
